@@ -2,6 +2,8 @@ SPECIFICATION Spec
 CONSTANTS
   Lens = {0, 1, 7, 8, 9, 31, 32, 33, 40, 64}
   Offs = {0, 1, 3, 8}
+  LongLens = {255, 256, 257, 1024, 4097}
+  LongOffs = {0, 3}
   Routes = {"lit", "cat", "slice", "interp", "split", "replace", "utf8", "join"}
 INVARIANTS VerdictIsSame Emit
 CHECK_DEADLOCK FALSE
